@@ -123,7 +123,10 @@ def run(ctx):
     ctx.cov["space"] = {"core_sizes": {sp.name: sp.size for sp in core}, "rest_sizes": {sp.name: sp.size for sp in rest}, "visited": len(cases)}
     ctx.cov["exhaustive"] = False
     shared.run_reduce_and_validate(ctx, cases, tag="c02")
-    from . import compose, graphreplay
+    from . import c08, compose, graphreplay
+
+    # cohorts (explicit or chosen automatically) over N-D labels on an N-D chunk grid, every result slice against the 1-D reference
+    c08.validate_axis_cases(ctx, c08.nd_cohort_cases(ctx.rng, 600 if ctx.tier == "quick" else 12000), "c02-nd")
 
     graphreplay.replay_graphs(ctx, prop="C02")
     # the composed specification (Flox.tla): exhaustive at small bounds, then its behaviours replayed into the code
